@@ -22,7 +22,11 @@ Spec:   XmlText.tla      class alphabet; Enc (_pcdata_nodes + the minidom text
                          requirement (repaired design); the pinned tree's
                          variants must fail; arrays with 0 / 1 / >= 2 NULL
                          entries (ShapeSeq), the shared-VALUE.NULL-node
-                         variant of the array encoder (DomAppend) must fail
+                         variant of the array encoder (DomAppend) must fail;
+                         an instance WITH its path: keybinding x same-named
+                         property (CimWire!KeyRel) x path form - the variant
+                         that hands the path to CIMInstance() before the
+                         properties (key propagation) must fail
         CimWireTrace.tla trace validation (TraceKit): verdict per event.
 Binding: abstract strings (TLC enumeration + simulation + TLC counterexamples)
         and abstract trees (TLC simulation of the builder machine + seeded
@@ -76,6 +80,9 @@ def diag_suffix(clause, clauses):
             # is not string (the element types are listed in `what`)
             out += ":nullentry-in-nonstring-array" if fam - {"string"} else \
                 ":nullentry-in-string-array"
+        elif any(c.startswith("diag.embpath.") for c in clauses):
+            # an embedded instance object whose path is set
+            out += ":embedded-instance-with-path"
     return out
 
 
@@ -146,6 +153,24 @@ def tlc_trees_nulls(ctx, num):
                                       "emission (abstract trees, arrays with "
                                       "several NULL entries)", env=JVM_ENV)
     return [v for v in vals if v]
+
+
+def tlc_trees_keyprop(ctx):
+    """CimWireMCKeyProp.cfg: model check (must pass) of every instance with
+    a path whose keybinding has / has not a same-named property, and the
+    trees TLC visited, each with the KeyRel case of its elements"""
+    r = ctx.tlc("CimWireMC", "CimWireMCKeyProp.cfg", workers=1, jvm=JVM,
+                label="object level, repaired design: instance WITH its path, "
+                      "keybinding x same-named property (free / NULL or array "
+                      "/ other type / same value / other value) x path form "
+                      "(none / namespace / namespace + host); requirement "
+                      "rejects a key overwritten by the property; enumeration "
+                      "of the trees for the binding")
+    out = []
+    for v in r.printed("KEYPROP"):
+        v = vlib.unset(v)
+        out.append((v[1], v[2], list(v[3])))
+    return out
 
 
 def parse_cex_string(out):
@@ -259,6 +284,38 @@ def unit_cases(rng, rounds):
                     if sh == "nulla":
                         els[0 if where == "root" else 1]["isarr"] = "T"
                     out.append(tree_case(rng, els, "unit-emb"))
+    return out
+
+
+KEY_TYPES = [t for t in H.ALL_TYPES if t != "reference"]
+
+
+def keyprop_unit_cases(rng, rounds):
+    """spec/CimWire.tla KeyRel, concretised for EVERY keybinding type: an
+    instance with its path whose keybinding has no same-named property /
+    one that is NULL / an array / of another type / equal / different /
+    (string, char16) different in lexical case only; the three path forms
+    rotate (and are all taken for string keys)"""
+    out = []
+    n = 0
+    for rnd in range(rounds):
+        for ti, typ in enumerate(KEY_TYPES):
+            vcs = [vc for vc in vcs_of(typ) if vc and vc != ["nan"]]
+            for rel in H.KEY_RELS:
+                if rel == "lexcase" and typ not in ("string", "char16"):
+                    continue
+                forms = H.PATH_FORMS if typ == "string" or rel == "lexcase" \
+                    else [H.PATH_FORMS[n % 3]]
+                for form in forms:
+                    n += 1
+                    k = (rnd * 5 + n) % len(vcs)
+                    vc, vc2 = vcs[k], vcs[(k + 1) % len(vcs)]
+                    other = KEY_TYPES[(ti + 1 + n % 5) % len(KEY_TYPES)]
+                    els = H.keyprop_unit_tree(typ, rel, form, vc, vc2, other,
+                                              extra=(n % 2 == 0))
+                    c = tree_case(rng, els, "unit-keyprop", exotic=False)
+                    c["rel"] = rel
+                    out.append(c)
     return out
 
 
@@ -379,6 +436,20 @@ def corrupted_copies(events, verdicts):
                 c["got2"][i]["val"][0] += "1"
                 out.append((c, "SecondRound.object"))
                 done.add("val")
+            if el["path"].startswith("/path/kb:") and "ownkey" not in done:
+                # the keybinding of the instance's own path takes over the
+                # value of the same-named property (key propagation)
+                pp = "/prop:" + el["lname"] + "/"
+                src = [x for x in e["got"] if x["path"] == pp and
+                       not x["isnull"] and x["arr"] == "s" and
+                       x["val"] != el["val"]]
+                if src:
+                    c = copy.deepcopy(e)
+                    for fld in ("val", "vt", "cls", "type", "name"):
+                        c["got"][i][fld] = copy.deepcopy(src[0][fld])
+                    out.append((c, "Values."
+                                if src[0]["type"] == el["type"] else "Types."))
+                    done.add("ownkey")
             if el["et"] == "qual" and e["orig"][i]["ovr"] == "N" and \
                     "flv" not in done:
                 c = copy.deepcopy(e)
@@ -406,6 +477,7 @@ def corrupted_copies(events, verdicts):
                 c["got"][i]["type"] = "uint16"
                 out.append((c, "Types.uint8"))
                 done.add("type")
+    corrupted_copies.done = done
     return out
 
 
@@ -479,6 +551,15 @@ def run(ctx):
     must_fail(ctx, "CimWireMC", "CimWireMCEmbEmpty.cfg", "ImplMeetsReq",
               "regression variant: parse_embeddedObject() testing `not val`: "
               "an empty array of embedded objects reads back as NULL", sens)
+    must_fail(ctx, "CimWireMC", "CimWireMCEmbPath.cfg", "ImplMeetsReq",
+              "pinned tree: an embedded instance that has a path is written "
+              "as VALUE.NAMEDINSTANCE & co inside the embedded object "
+              "string, which the parser refuses", sens)
+    must_fail(ctx, "CimWireMC", "CimWireMCPathFirst.cfg", "ImplMeetsReq",
+              "regression variant: the parser hands the path to CIMInstance() "
+              "before it adds the properties: a keybinding that differs from "
+              "the same-named property is overwritten (key propagation of "
+              "CIMInstance.__setitem__)", sens)
     for cfg, what in (
             ("CimWireMCAsIsNull.cfg", "NULL entry in a non-string array: "
              "parser asserts"),
@@ -525,6 +606,34 @@ def run(ctx):
     cases += unit_cases(rng, 1 if quick else 6)
     cases += random_tree_cases(rng, 400 if quick else 8000,
                                sims[:200] + enum[:200])
+    # instance WITH its path: keybinding x same-named property (KeyRel).
+    # (appended last: the random streams of the drivers above stay as they
+    # were)
+    ktrees = tlc_trees_keyprop(ctx)
+    ctx.extra["tlc_trees_enumerated_keyprop"] = len(ktrees)
+    for kmode, recs, rels in ktrees:
+        if quick and kmode != "entity":
+            continue              # quick: one escaping mode (drawn below)
+        c = tree_case(rng, H.from_builder(recs, rng, rels), "tlc-enum-keyprop",
+                      exotic=False)
+        if not quick:
+            c["spec"]["mode"] = kmode
+        own = [r for r in rels if r != "none"]
+        c["rel"] = own[0] if own else "none"
+        cases.append(c)
+    cases += keyprop_unit_cases(rng, 1 if quick else 4)
+    # embedded instances that HAVE a path (CimWireMC!SetEmbPath): every
+    # embedded-object shape with at least one object
+    for rnd in range(1 if quick else 4):
+        for kind in ("prop", "pval"):
+            for emb in ("instance", "object"):
+                for sh in ("scalar", "v", "vn", "nv", "vv"):
+                    where = "root"
+                    if kind == "prop" and (rnd + len(cases)) % 3 == 0:
+                        where = ("inst", "class")[len(cases) % 2]
+                    cases.append(tree_case(
+                        rng, H.emb_unit_tree(kind, emb, sh, where, hp="Y"),
+                        "unit-emb-path"))
 
     # -- 3. real code + TLC verdicts --------------------------------------------
     events, infos, kept = [], [], []
@@ -563,12 +672,31 @@ def run(ctx):
     if nmany < 10:
         raise vlib.MachineryError("vacuous: only %d accepted events with an "
                                   "array of >= 2 NULL entries" % nmany)
-    if len(corrupt) < 8:
-        raise vlib.MachineryError("too few corrupted copies (%d)" %
-                                  len(corrupt))
+    # every KeyRel case must have been exercised (a property of the input:
+    # counted whatever the verdict)
+    nrel = {}
+    for c, e, v in zip(cases, events, verdicts):
+        if c.get("rel"):
+            rel = c["rel"]
+            for el in c["spec"]["els"]:
+                if el.get("rel") == "lexcase":
+                    rel = "lexcase"
+            rel = rel.split("-")[0]
+            nrel[rel] = nrel.get(rel, 0) + 1
+    ctx.extra["events_per_keyrel_case"] = nrel
+    for rel in ("free", "shape", "type", "agree", "value", "lexcase"):
+        if nrel.get(rel, 0) < 5:
+            raise vlib.MachineryError("vacuous: only %d events with "
+                                      "an own-path keybinding in relation %r "
+                                      "to the same-named property: %r" %
+                                      (nrel.get(rel, 0), rel, nrel))
+    if len(corrupt) < 8 or "ownkey" not in corrupted_copies.done:
+        raise vlib.MachineryError("too few corrupted copies (%d; %s)" %
+                                  (len(corrupt), sorted(corrupted_copies.done)))
     sens.append("%d corrupted copies of accepted events (value token, NULL "
                 "entry, one of two NULL entries dropped, dropped element, flavor, propagated, child order, "
-                "namespace, type, second round) rejected by TLC with the "
+                "namespace, type, second round, own-path keybinding overwritten by "
+                "the same-named property) rejected by TLC with the "
                 "expected clause" % len(corrupt))
 
     nrej = 0
@@ -616,6 +744,15 @@ def run(ctx):
         "PARAMVALUE round trips apply the typing step of "
         "WBEMConnection._methodcall (cimvalue(value, PARAMTYPE)) after "
         "TupleParser.parse_paramvalue, as InvokeMethod does",
+        "an instance transmitted WITH its path: every keybinding type x "
+        "relation to the same-named property (none / NULL / array / other "
+        "type / equal / different / lexical case only) x path form; the "
+        "instance's path is attached with `inst.path = ...` (the constructor "
+        "would overwrite differing keybindings); paths of embedded instances "
+        "are not transmitted",
+        "embedded instances whose `path` attribute is set are generated "
+        "(units; TLC: CimWireMCStruct*.cfg, CimWireMCEmbPath.cfg); the path "
+        "of an embedded instance is not transmitted and not compared",
         "array values: NULL multiplicity none / one / two or more (shapes "
         "of CimWireMC!ShapeSeq, <= 4 entries, <= 2 NULL entries); arrays of "
         "embedded objects / references with several NULL entries are "
